@@ -20,6 +20,7 @@ import (
 	"time"
 
 	"gorm.io/gorm"
+	"gorm.io/gorm/logger"
 )
 
 type c14TidKey struct{}
@@ -251,13 +252,48 @@ func newC14WorldPool(nViews int, ops []c14Op, gated bool, maxOpen int) *c14World
 		w.sqlDB.SetMaxOpenConns(maxOpen)
 	}
 	pool := &c14Pool{DB: w.sqlDB, w: w}
-	v0 := gorm.NewPreparedStmtDB(pool)
+	// The structs are obtained the way an application obtains them, so the world follows the gorm.go under check:
+	// view 0 = the database's own cache (gorm.Open with Config.PrepareStmt: NewPreparedStmtDB + cacheStore.Store),
+	// every further view = what db.Session(&Session{PrepareStmt: true}) hands to the new handle — a second struct
+	// around the registered cache's Mux and current map (unrepaired F14a), or the registered struct itself.
+	db, err := gorm.Open(c14Dialector{pool: pool}, &gorm.Config{PrepareStmt: true, DisableAutomaticPing: true, Logger: logger.Discard})
+	if err != nil {
+		panic("c14 world: gorm.Open: " + err.Error())
+	}
+	v0, ok := db.ConnPool.(*gorm.PreparedStmtDB)
+	if !ok {
+		panic(fmt.Sprintf("c14 world: gorm.Open(PrepareStmt) left ConnPool %T", db.ConnPool))
+	}
 	w.views = []*gorm.PreparedStmtDB{v0}
 	for i := 1; i < nViews; i++ {
-		// exactly what gorm.go Session(&Session{PrepareStmt: true}) builds (gorm.go:282-286)
-		w.views = append(w.views, &gorm.PreparedStmtDB{ConnPool: pool, Mux: v0.Mux, Stmts: v0.Stmts})
+		v, ok := db.Session(&gorm.Session{PrepareStmt: true}).Statement.ConnPool.(*gorm.PreparedStmtDB)
+		if !ok {
+			panic("c14 world: Session(PrepareStmt) did not yield a *PreparedStmtDB")
+		}
+		w.views = append(w.views, v)
 	}
 	return w
+}
+
+// c14Dialector: no database behind it — Initialize only installs the parking pool as the ConnPool of gorm.Open
+type c14Dialector struct {
+	dummyDialector
+	pool gorm.ConnPool
+}
+
+func (d c14Dialector) Initialize(db *gorm.DB) error { db.ConnPool = d.pool; return nil }
+
+// vstruct: identity of the struct behind every view (index of the first view holding the same *PreparedStmtDB)
+func (w *c14World) vstruct() []int {
+	out := make([]int, len(w.views))
+	ids := map[*gorm.PreparedStmtDB]int{}
+	for i, v := range w.views {
+		if _, ok := ids[v]; !ok {
+			ids[v] = len(ids)
+		}
+		out[i] = ids[v]
+	}
+	return out
 }
 
 func c14Classify(err error) string {
